@@ -11,6 +11,7 @@ TABLE = {
     "C08": ("sim.scenarios.crypto", "C08", "exploration", 8000, 1000000),
     "C09": ("sim.scenarios.crypto", "C09", "exploration", 4000, 500000),
     "C10": ("sim.scenarios.persist", "C10", "exploration", 3000, 300000),
+    "C11": ("sim.scenarios.validation", "SCENARIO", "exploration", 4000, 400000),
     "C12": ("sim.scenarios.state", "C12", "exploration", 4000, 400000),
     "C15": ("sim.scenarios.state", "C15", "exploration", 4000, 400000),
     "C13": ("sim.scenarios.isolation", "SCENARIO", "exploration", 3000, 300000),
